@@ -48,6 +48,7 @@ func c13(c *Ctx) {
 		"(encrypted) decrypt*/encrypt* call the caller's AEAD exactly once, with the caller's associatedData parameter and the stored ciphertext / marshalled keyset, release a keyset only under err==nil of that call, EncryptedKeyset literals are built only there; every caller passes its own associatedData parameter through; " +
 		"(info) KeysetInfo/KeyInfo literals are filled only from type URL, status, key ID and prefix type, String() prints only KeysetInfo(). " +
 		"(label) hasSecrets trusts the KeyMaterialType label, so every registered key parser, folded with the label bound to each constant, must be able to succeed for exactly one label, and the generic ParseKey may fall back to an opaque key only when no parser is registered. " +
+		"(pubtype) a key.Key component stored into a …PublicKey object was type-tested against a …PublicKey type on every path (a private key shares its public key's parameters). " +
 		"secretdata's copy-in/copy-out is decided under C19. Not decided: confidentiality of the caller's AEAD."
 	hs := p.PkgFunc("keyset", "hasSecrets")
 	if hs == nil {
@@ -60,6 +61,7 @@ func c13(c *Ctx) {
 	c13Encrypted(c)
 	c13Info(c)
 	c13Label(c)
+	c13PubType(c)
 }
 
 // ---------------------------------------------------------------- classify
